@@ -63,6 +63,9 @@ def showCells (a : List (Option Bytes)) : String :=
   showList (fun c => match c with | some b => showBytes b | none => "N") a
 
 def piPtrOps (cfg : PiPtrCfg) : SchemeOps where
+  hyps lv key db t absent := match key1 key with
+    | .ok K => PiPtr.hypsB cfg lv K db t absent
+    | .error _ => false
   keyGen t := do let (k, t') ← PiPtr.keyGen cfg t; pure ([k], t')
   setup lv key db t := do
     let K ← key1 key
